@@ -8,12 +8,14 @@ func init() {
 		Funcs: []string{
 			"pool.rendezvousHash", "pool.rendezvousRanked", "pool.PeerPool.GetOwner", "pool.PeerPool.IsLocalOwner",
 			"pool.PeerPool.getHealthyOwner", "pool.PeerPool.AddPeer", "pool.PeerPool.RemovePeer", "pool.NewPeerPool",
+			// "served from exactly one node's pool": the entry points decide once and serve or forward
+			"pool.PeerPool.Allocate", "pool.PeerPool.Release", "pool.PeerPool.getPeerAddr",
 		},
 		Undecided: []string{
 			"hashString / hashCombine are trusted to be deterministic functions (ghost hstr, score); nothing about FNV-1a or the Wang mixer is decided",
 			"ties: the contracts REQUIRE that distinct peer names have distinct scores and that scores are non-zero. The mixer is a bijection of keyHash^FNV1a(name), so scores tie exactly when two peer names collide under 64-bit FNV-1a; then rendezvousHash (first maximum, GetOwner/IsLocalOwner) and rendezvousRanked (sort.Slice, unstable; getHealthyOwner/Allocate/Release) name different owners (spec/replays/inspection_C17_score_tie_owner_disagreement.go, real colliding names). With all scores 0 rendezvousHash returns \"\"",
 			"peer list maintenance, converse inclusions and order: that AddPeer / NewPeerPool add NOTHING BUT the new peer / the configured peers, that RemovePeer removes peerID and keeps every other member, and that peerNodes stays strictly sorted (duplicate-free) are not claimed: after append + sort.Strings, slices.Compact or the in-place shift append(s[:i], s[i+1:]...) the element terms have shifted indices (off + perm(i), off + i + 1) that quantifier triggers of the form off + ?a do not match, and the strict order needs transitivity of the uninterpreted string order (tried again on the current engine with the sort model on offset-relative indices and constants naming merged slice headers: AddPeer 'old members kept' and NewPeerPool 'every configured peer is a member' now discharge, the converse directions and sortedness still do not). Claimed instead: peerID / every old member IS a member after AddPeer (for NewPeerPool, which after fix_3 passes the list through slices.Compact as well, not even that direction discharges any more: only result/nodeID facts are claimed), lengths change by 0 or 1, RemovePeer only shrinks; behaviour confirmed by replays. NewPeerPool keeps duplicate entries of cfg.Peers and RemovePeer removes one occurrence only (finding F7; fix_3 de-duplicates with slices.Compact)",
-			"'a request entering at any node is served from exactly one node's pool' is decided only as: getHealthyOwner returns exactly one node, the maximum among the peers the ENTRY node regards as usable; nodes with different health views can choose different owners for the same subscriber; Allocate/forwardAllocation/handleAllocate (HTTP) are not under contract",
+			"'a request entering at any node is served from exactly one node's pool' is decided only as: getHealthyOwner returns exactly one node, the maximum among the peers the ENTRY node regards as usable; nodes with different health views can choose different owners for the same subscriber; Allocate / Release are under contract for 'exactly one of: served from the local pool (iff this node is the healthy owner) or forwarded once' and getPeerAddr for 'the address is the entry of exactly that node'; forwardAllocation / forwardRelease / handleAllocate / handleRelease (HTTP, JSON, URL escaping) are trusted frames",
 			"concurrency: getHealthyOwner uses the peer slice after releasing p.mu while RemovePeer/AddPeer shift/sort the same backing array in place (by inspection); not decided",
 			"the comparator closure of sort.Slice in rendezvousRanked is opaque to the engine: its effect is an assumed call-site contract (sorted by non-increasing score, permutation); a wrong comparator would not be noticed",
 		},
